@@ -260,9 +260,9 @@ theorem appendAll_spec (ds : List Dgram) (p : Packet) (ps : List (Nat × Nat))
 def idDgram (index ethertype : Int) : Dgram :=
   { cmd := cmd_NOP, data := encLE 2 ethertype.toNat, idx := 0, addr := .logical index, wkc := 0 }
 
-theorem hdr_eq (size : Nat) (index et : Int) :
-    hdrBytes size index et = encLE 2 (hdrWord size) ++ dgBytes true (idDgram index et) := by
-  have : lenField 2 true = 0x8002 := by decide
+theorem hdr_eq (size : Nat) (index et : Int) (m : Bool) :
+    hdrBytes size index et m = encLE 2 (hdrWord size) ++ dgBytes m (idDgram index et) := by
+  have : lenField 2 m = idLenWord m := by cases m <;> decide
   simp [hdrBytes, dgBytes, dgHead, idDgram, addrBytes, this, cmd_NOP]
 
 theorem hdrWord_eq (size : Nat) (h : size - 2 < 4096) : hdrWord size = size - 2 + 4096 := by
@@ -270,14 +270,15 @@ theorem hdrWord_eq (size : Nat) (h : size - 2 < 4096) : hdrWord size = size - 2 
   simp [hdrWord] at *
   rw [Nat.or_comm]; omega
 
-theorem idDgram_ok (index et : Int) (h : fitsS 4 index = true) : dgOk true (idDgram index et) = true := by
-  have : lenField 2 true = 0x8002 := by decide
+theorem idDgram_ok (index et : Int) (m : Bool) (h : fitsS 4 index = true) :
+    dgOk m (idDgram index et) = true := by
+  have : lenField 2 m < 65536 := by cases m <;> decide
   simp [dgOk, idDgram, addrOk, h, this, cmd_NOP, fitsU]
 
 theorem assemble_some (p : Packet) (index et : Int) (bs : List UInt8)
     (h : assemble p index et = some bs) :
     hdrOk p.size index et = true ∧ okList p.dgrams = true ∧
-    bs = encLE 2 (hdrWord p.size) ++ (dgBytes true (idDgram index et) ++ (encList p.dgrams ++ padding p.size)) := by
+    bs = encLE 2 (hdrWord p.size) ++ (encList (idDgram index et :: p.dgrams) ++ padding p.size) := by
   unfold assemble at h
   split at h
   · rename_i hh
@@ -286,25 +287,17 @@ theorem assemble_some (p : Packet) (index et : Int) (bs : List UInt8)
     · rename_i hk
       simp only [Option.map_some, Option.some.injEq] at h
       refine ⟨hh, hk, ?_⟩
-      rw [← h, hdr_eq]; simp
+      rw [← h, hdr_eq]; simp [encList]
     · cases h
   · cases h
 
-theorem parseDgrams_frame (idD : Dgram) (ds : List Dgram) (hne : ds ≠ []) (hok : okList ds = true)
-    (hlen : ∀ d ∈ ds, d.data.length < 2048) (hid : dgOk true idD = true) (hidl : idD.data.length < 2048)
-    (fuel : Nat) (hf : ds.length + 1 ≤ fuel) :
-    parseDgrams fuel (dgBytes true idD ++ encList ds) = some (expect true idD :: expectList ds) := by
-  cases fuel with
-  | zero => omega
-  | succ fuel =>
-    have hp := parseDgram_dgBytes true idD (encList ds) hid hidl
-    simp only [parseDgrams, hp]
-    simp [expect, parseDgrams_encList ds hne hok hlen fuel (by omega)]
+/-- the datagrams of a frame: the identification datagram, then the appended ones -/
+def frameDgrams (index et : Int) (ds : List Dgram) : List Dgram := idDgram index et :: ds
 
 theorem parse_assemble_valid (p : Packet) (index et : Int) (bs : List UInt8) (hv : Valid p)
-    (hne : p.dgrams ≠ []) (h : assemble p index et = some bs) :
+    (h : assemble p index et = some bs) :
     parseFrame bs = some (PFrame.mk (PACKET_HEADER - 2 + bodySize p.dgrams) 0 1
-        (expect true (idDgram index et) :: expectList p.dgrams) (padding p.size)) := by
+        (expectList (frameDgrams index et p.dgrams)) (padding p.size)) := by
   obtain ⟨hh, hk, rfl⟩ := assemble_some p index et bs h
   obtain ⟨hsz, hmax⟩ := hv
   simp only [hdrOk, Bool.and_eq_true, decide_eq_true_eq] at hh
@@ -316,62 +309,59 @@ theorem parse_assemble_valid (p : Packet) (index et : Int) (bs : List UInt8) (hv
   have m1 : hdrWord p.size % 2048 = PACKET_HEADER - 2 + bodySize p.dgrams := by omega
   have m2 : hdrWord p.size / 2048 % 2 = 0 := by omega
   have m3 : hdrWord p.size / 4096 = 1 := by omega
-  have hid := idDgram_ok index et hidx
-  have hidlen : (dgBytes true (idDgram index et)).length = PACKET_HEADER - 2 := by
-    rw [dgBytes_length _ _ hid]; simp [dgSize, idDgram, hH, hT, hP]
-  have harea : (dgBytes true (idDgram index et) ++ encList p.dgrams).length
-      = PACKET_HEADER - 2 + bodySize p.dgrams := by
-    simp [hidlen, encList_length _ hk]
-  have hlens : ∀ d ∈ p.dgrams, d.data.length < 2048 := by
+  have hokall : okList (idDgram index et :: p.dgrams) = true := by
+    simp [okList, idDgram_ok index et _ hidx, hk]
+  have harea : (encList (idDgram index et :: p.dgrams)).length = PACKET_HEADER - 2 + bodySize p.dgrams := by
+    rw [encList_length _ hokall]; simp [dgSize, idDgram, hH, hT, hP]
+  have hlens : ∀ d ∈ idDgram index et :: p.dgrams, d.data.length < 2048 := by
     intro d hd
-    have := mem_le_bodySize _ _ hd
-    simp only [dgSize] at this
-    omega
-  have hbody := parseDgrams_encList p.dgrams hne hk hlens
-  have hpd := parseDgram_dgBytes true (idDgram index et) (encList p.dgrams) hid (by simp [idDgram])
+    rcases List.mem_cons.1 hd with rfl | hd
+    · simp [idDgram]
+    · have := mem_le_bodySize _ _ hd
+      simp only [dgSize] at this
+      omega
+  have hbody := parseDgrams_encList (idDgram index et :: p.dgrams) (by simp) hokall hlens
   unfold parseFrame
   simp only [take?_encLE, Option.bind_some, e1, m1]
-  rw [← List.append_assoc, ← harea, take?_append]
+  rw [← harea, take?_append]
   simp only [Option.bind_some, harea]
-  rw [parseDgrams_frame _ _ hne hk hlens hid (by simp [idDgram]) _ (by have := length_le_bodySize p.dgrams; omega)]
-  simp [m2, m3]
+  rw [hbody _ (by have := length_le_bodySize p.dgrams; simp; omega)]
+  simp [m2, m3, frameDgrams]
 
-/-- FULL-STRENGTH statement of "the independent parser recovers the frame": the identification
-datagram carries `more` only when a datagram follows.  The code sets it always, so this fails on
-the empty sequence (`parse_assemble_refuted`); `parse_assemble_partial` is the remainder. -/
-def ParseAssembleFull : Prop :=
-  ∀ (ds : List Dgram) (p : Packet) (ps : List (Nat × Nat)) (index et : Int) (bs : List UInt8),
-    appendAll Packet.empty ds = some (p, ps) → assemble p index et = some bs →
-    parseFrame bs = some (PFrame.mk (PACKET_HEADER - 2 + bodySize ds) 0 1
-        (expect (!ds.isEmpty) (idDgram index et) :: expectList ds) (padding p.size))
-
-/-- for every accepted non-empty datagram sequence and all field values that `struct.pack`
-accepts, the parser written from the frame format recovers: header length = payload length,
-type 1, the identification datagram first, then every datagram's cmd, idx, address, length,
-more flag (set on all but the last), data and working counter, and the padding -/
-theorem parse_assemble_partial (ds : List Dgram) (p : Packet) (ps : List (Nat × Nat)) (index et : Int)
-    (bs : List UInt8) (hacc : appendAll Packet.empty ds = some (p, ps)) (hne : ds ≠ [])
+/-- PARSE ∘ ASSEMBLE, full strength: for every accepted datagram sequence (the empty one included)
+and all field values that `struct.pack` accepts, the parser written from the frame format
+recovers: header length = payload length, type 1, the identification datagram first, then every
+datagram's cmd, idx, address, length, data and working counter, the `more` flag set on all but
+the last datagram of the frame, and the padding -/
+theorem parse_assemble (ds : List Dgram) (p : Packet) (ps : List (Nat × Nat)) (index et : Int)
+    (bs : List UInt8) (hacc : appendAll Packet.empty ds = some (p, ps))
     (hasm : assemble p index et = some bs) :
     parseFrame bs = some (PFrame.mk (PACKET_HEADER - 2 + bodySize ds) 0 1
-        (expect true (idDgram index et) :: expectList ds) (padding p.size)) := by
+        (expectList (frameDgrams index et ds)) (padding p.size)) := by
   obtain ⟨h1, h2, _, _⟩ := appendAll_spec ds p ps hacc
-  have := parse_assemble_valid p index et bs h2 (by rw [h1]; exact hne) hasm
+  have := parse_assemble_valid p index et bs h2 hasm
   rwa [h1] at this
 
-/-- the empty packet assembles to a frame whose only datagram announces a successor:
-no well-formed EtherCAT frame -/
-theorem parse_assemble_refuted :
-    appendAll Packet.empty [] = some (Packet.empty, []) ∧
-    (assemble Packet.empty 0 0x88A4).isSome = true ∧
-    (assemble Packet.empty 0 0x88A4).bind parseFrame = none ∧ ¬ ParseAssembleFull := by
-  have h3 : (assemble Packet.empty 0 0x88A4).bind parseFrame = none := by decide +kernel
-  refine ⟨rfl, by decide +kernel, h3, fun hfull => ?_⟩
-  cases hb : assemble Packet.empty 0 0x88A4 with
-  | none => exact absurd hb (by decide +kernel)
-  | some bs =>
-    have := hfull [] Packet.empty [] 0 0x88A4 bs rfl hb
-    rw [hb] at h3
-    simp [this] at h3
+/-- the identification datagram carries `more` exactly when a datagram follows -/
+theorem ident_more (index et : Int) (ds : List Dgram) :
+    (expectList (frameDgrams index et ds)).head? = some (expect (!ds.isEmpty) (idDgram index et)) := by
+  simp [frameDgrams, expectList]
+
+/-- `assemble` as it was before the repair a879e33: the identification datagram always announced
+a successor (length word 0x8002) -/
+def oldAssemble (p : Packet) (index ethertype : Int) : Option (List UInt8) :=
+  if hdrOk p.size index ethertype then
+    (asmBody p.dgrams.length 1 p.dgrams).map fun body =>
+      hdrBytes p.size index ethertype true ++ body ++ padding p.size
+  else none
+
+/-- regression marker: with the old header bytes the empty packet is no well-formed frame (its only
+datagram announces a successor), while the repaired `assemble` gives a frame that parses -/
+theorem old_header_refuted :
+    (oldAssemble Packet.empty 0 0x88A4).isSome = true ∧
+    (oldAssemble Packet.empty 0 0x88A4).bind parseFrame = none ∧
+    ((assemble Packet.empty 0 0x88A4).bind parseFrame).isSome = true := by
+  refine ⟨by decide +kernel, by decide +kernel, by decide +kernel⟩
 
 /-- the address words the parser reports decode to the given address -/
 theorem expect_addr (m : Bool) (d : Dgram) (h : addrOk d.addr = true) :
@@ -507,9 +497,9 @@ theorem positions_exact (ds : List Dgram) (p : Packet) (ps : List (Nat × Nat)) 
     | some body =>
       simp only [hb, Option.map_some, Option.some.injEq] at hasm
       subst hasm
-      have hl : (hdrBytes p.size index et).length = PACKET_HEADER := by simp [hdrBytes, hP]
+      have hl : (hdrBytes p.size index et (!p.dgrams.isEmpty)).length = PACKET_HEADER := by simp [hdrBytes, hP]
       rw [h1] at hb
-      have := positions_gen _ ds 1 (hdrBytes p.size index et) (padding p.size) body hb
+      have := positions_gen _ ds 1 (hdrBytes p.size index et (!p.dgrams.isEmpty)) (padding p.size) body hb
       rwa [hl] at this
   · cases hasm
 
@@ -520,7 +510,7 @@ theorem assemble_length (p : Packet) (hv : Valid p) (index et : Int) (bs : List 
   obtain ⟨_, hk, rfl⟩ := assemble_some p index et bs h
   have hsz := hv.1
   have hP := hP
-  simp [encList_length _ hk, padding, dgBytes, dgHead, idDgram, addrBytes]
+  simp [encList, encList_length _ hk, padding, dgBytes, dgHead, idDgram, addrBytes]
   omega
 
 theorem min_le_max : MIN_FRAME ≤ MAXSIZE := by decide
@@ -549,10 +539,10 @@ theorem pad_min (ds : List Dgram) (p : Packet) (ps : List (Nat × Nat)) (index e
   have hl := assemble_length p h2 index et bs hasm
   refine ⟨by omega, by omega, fun h => by simp [padding]; omega, ?_⟩
   obtain ⟨_, hk, rfl⟩ := assemble_some p index et bs hasm
-  refine ⟨encLE 2 (hdrWord p.size) ++ (dgBytes true (idDgram index et) ++ encList p.dgrams), by simp, ?_⟩
+  refine ⟨encLE 2 (hdrWord p.size) ++ encList (idDgram index et :: p.dgrams), by simp, ?_⟩
   have := h2.1
   have hP := hP
-  simp [encList_length _ hk, dgBytes, dgHead, idDgram, addrBytes]
+  simp [encList, encList_length _ hk, dgBytes, dgHead, idDgram, addrBytes]
   omega
 
 /-- `full()` on a reachable packet says exactly that the datagram count limit is reached;
@@ -755,13 +745,16 @@ theorem sterile_bytes (ops : List (Bool × Dgram)) (s : Sterile) (index et : Int
     | some body =>
       simp only [hb, Option.map_some, Option.some.injEq] at hasm
       subst hasm
-      have hl : (hdrBytes s.pkt.size index et).length = PACKET_HEADER := by simp [hdrBytes, hP]
+      have hl : (hdrBytes s.pkt.size index et (!s.pkt.dgrams.isEmpty)).length = PACKET_HEADER := by
+        simp [hdrBytes, hP]
       rw [h1] at hb
-      obtain ⟨b', hb1, hb2⟩ := sterilize_gen _ ops 1 (hdrBytes s.pkt.size index et) (padding s.pkt.size) body hb
+      obtain ⟨b', hb1, hb2⟩ := sterilize_gen _ ops 1 (hdrBytes s.pkt.size index et (!s.pkt.dgrams.isEmpty))
+        (padding s.pkt.size) body hb
       have hn : (neutral ops).length = (ops.map (·.2)).length := by simp [neutral]
+      have he : (neutral ops).isEmpty = s.pkt.dgrams.isEmpty := by rw [h1]; cases ops <;> simp [neutral]
       rw [hl] at hb2
       refine ⟨_, rfl, ?_⟩
-      simp only [hh, ↓reduceIte, hn, hb1, Option.map_some, hotf, hb2]
+      simp only [hh, ↓reduceIte, hn, hb1, Option.map_some, hotf, hb2, he]
   · cases hasm
 
 theorem getElem?_sterilize (otf : List (Nat × Nat × Nat)) (bs : List UInt8) (i : Nat) :
@@ -795,13 +788,12 @@ theorem sterile_diff (ops : List (Bool × Dgram)) (s : Sterile) (index et : Int)
   · intro i; rw [getElem?_sterilize, hotf]
 
 /-- the independent parser reads the sterile frame as the same datagrams with NOP as the
-command of the writers (non-empty sequences; the empty one is the known finding) -/
-theorem sterile_parse_partial (ops : List (Bool × Dgram)) (s : Sterile) (index et : Int) (bs : List UInt8)
-    (h : Sterile.appendAll Sterile.empty ops = some s) (hne : ops ≠ [])
-    (hasm : assemble s.pkt index et = some bs) :
+command of the writers (every accepted sequence, the empty one included) -/
+theorem sterile_parse (ops : List (Bool × Dgram)) (s : Sterile) (index et : Int) (bs : List UInt8)
+    (h : Sterile.appendAll Sterile.empty ops = some s) (hasm : assemble s.pkt index et = some bs) :
     ∃ st, s.sterile index et = some st ∧
       parseFrame st = some (PFrame.mk (PACKET_HEADER - 2 + bodySize (ops.map (·.2))) 0 1
-        (expect true (idDgram index et) :: expectList (neutral ops)) (padding s.pkt.size)) := by
+        (expectList (frameDgrams index et (neutral ops))) (padding s.pkt.size)) := by
   obtain ⟨st, h1, h2⟩ := sterile_bytes ops s index et bs h hasm
   obtain ⟨⟨ps, hacc⟩, _, _⟩ := sterile_spec ops s h
   obtain ⟨_, hv, _, _⟩ := appendAll_spec _ _ _ hacc
@@ -811,10 +803,7 @@ theorem sterile_parse_partial (ops : List (Bool × Dgram)) (s : Sterile) (index 
     refine ⟨?_, hv.2⟩
     simp only [neutral_bodySize]
     rw [hv.1, i1]
-  have := parse_assemble_valid ⟨neutral ops, s.pkt.size⟩ index et st hv'
-    (by cases ops with
-        | nil => exact absurd rfl hne
-        | cons o os => simp [neutral]) h2
+  have := parse_assemble_valid ⟨neutral ops, s.pkt.size⟩ index et st hv' h2
   simp only [neutral_bodySize] at this
   exact ⟨st, h1, this⟩
 
